@@ -378,11 +378,11 @@ fn c01_canon_rebuild_buf_2col() {
 }
 #[kani::proof]
 #[kani::unwind(7)]
-fn c01t_canon_rebuild_buf_3col() {
+fn c01_canon_rebuild_buf_3col() {
     rebuild_buf_case::<4, 3>([0, 1, 3]);
 }
 #[kani::proof]
 #[kani::unwind(7)]
-fn c01t_canon_rebuild_buf_4col() {
+fn c01_canon_rebuild_buf_4col() {
     rebuild_buf_case::<5, 4>([0, 2, 3, 4]);
 }
